@@ -43,6 +43,14 @@ fn print(_t: &JsValue, args: &[JsValue], ctx: &mut Context) -> JsResult<JsValue>
     Ok(JsValue::undefined())
 }
 
+/// host function `__detach(arrayBuffer)`: detaches a buffer through the public embedder API
+fn detach(_t: &JsValue, args: &[JsValue], _ctx: &mut Context) -> JsResult<JsValue> {
+    let obj = args.first().and_then(JsValue::as_object).ok_or_else(|| boa_engine::JsNativeError::typ().with_message("not an object"))?;
+    let buf = boa_engine::object::builtins::JsArrayBuffer::from_object(obj)?;
+    let _ = buf.detach(&JsValue::undefined()); // idempotent: detaching twice is not an error for the harness
+    Ok(JsValue::undefined())
+}
+
 pub fn take_out() -> Vec<String> {
     OUT.with(|o| std::mem::take(&mut *o.borrow_mut()))
 }
@@ -67,6 +75,7 @@ pub fn new_context(l: Limits) -> Context {
     if let Some(v) = l.recursion { ctx.runtime_limits_mut().set_recursion_limit(v); }
     if let Some(v) = l.stack { ctx.runtime_limits_mut().set_stack_size_limit(v); }
     ctx.register_global_builtin_callable(js_string!("print"), 0, NativeFunction::from_fn_ptr(print)).expect("print");
+    ctx.register_global_builtin_callable(js_string!("__detach"), 1, NativeFunction::from_fn_ptr(detach)).expect("detach");
     ctx
 }
 
@@ -140,10 +149,12 @@ pub fn native_kind(n: &boa_engine::JsNativeError) -> String {
 pub struct Trace {
     pub out: Vec<String>,
     pub completion: String,
+    /// human-readable error text (never compared)
+    pub detail: String,
 }
 impl Trace {
     pub fn to_json(&self) -> serde_json::Value {
-        serde_json::json!({"out": self.out, "completion": self.completion})
+        serde_json::json!({"out": self.out, "completion": self.completion, "detail": self.detail})
     }
 }
 
@@ -151,12 +162,12 @@ impl Trace {
 pub fn eval_in(ctx: &mut Context, src: &[u8]) -> Trace {
     let _ = take_out();
     let r = ctx.eval(Source::from_bytes(src));
-    let completion = match r {
-        Ok(v) => format!("ok {}", render_value(&v, ctx)),
-        Err(e) => format!("err {}", render_error(&e, ctx)),
+    let (completion, detail) = match r {
+        Ok(v) => (format!("ok {}", render_value(&v, ctx)), String::new()),
+        Err(e) => (format!("err {}", render_error(&e, ctx)), format!("{e}")),
     };
     let _ = ctx.run_jobs();
-    Trace { out: take_out(), completion }
+    Trace { out: take_out(), completion, detail }
 }
 
 /// Run with a panic guard. A Rust panic is rendered as completion "panic <message>".
@@ -167,7 +178,7 @@ pub fn guarded<F: FnOnce() -> Trace + std::panic::UnwindSafe>(f: F) -> Trace {
             let msg = if let Some(s) = p.downcast_ref::<&str>() { s.to_string() }
                 else if let Some(s) = p.downcast_ref::<String>() { s.clone() } else { "?".into() };
             let out = take_out();
-            Trace { out, completion: format!("panic {msg}") }
+            Trace { out, completion: format!("panic {msg}"), detail: String::new() }
         }
     }
 }
